@@ -64,3 +64,9 @@ claim("C06", "other", "typestate of the deferral flag over enter/exit handlers, 
       "loop variable removed on every normal exit including zero iterations and falsy last values.",
       "Not decided: evaluation of the body statements themselves (C02/C03). Trusted: walker event order.",
       "DESIGN.md 5/C06")
+
+claim("C16", "other", "structural pattern analysis of to_DiGraph (dependency-set construction, append-only wire lists indexed by enumerate position, consecutive-pair edges) + unordered-flow and effect checks",
+      "Decides the structural clauses: the dependency set is modes plus registers of transforms in both argument slots and is a set; wire lists are append-only with the operation's enumerate index, so strictly increasing; "
+      "every edge joins positions i-1 and i of one wire list (hence forward, acyclic, per-wire program order); node attributes come from the operation; the graph depends only on program.operations (no cache, no mutation).",
+      "Not decided: the reachability equivalence ('j reachable from i iff a sharing chain exists') - a statement about the algorithm's output over all operation sequences, no sound static argument in reach beyond the forward-edge invariant.",
+      "DESIGN.md 5/C16")
